@@ -78,7 +78,7 @@ type Contract struct {
 
 func (c *Contract) flag(s string) bool { return c != nil && c.Flags[s] }
 
-var clauseRe = regexp.MustCompile(`^(at|keeps|private|ghost|always|readonly-if|requires|ensures|invariant|decreases|modifies|let|props|loop|replay|pure|trusted|maypanic|nofunctional|nosafety|nopre|readonly|runes|noframe|nocallframe|noerrprop|flags|assume|check)\b`)
+var clauseRe = regexp.MustCompile(`^(at|keeps|private|ghost|always|readonly-if|requires|ensures|invariant|decreases|modifies|let|props|loop|replay|pure|trusted|maypanic|nofunctional|nosafety|nopre|overlay|readonly|runes|noframe|nocallframe|noerrprop|flags|assume|check)\b`)
 var labelRe = regexp.MustCompile(`^@([A-Za-z0-9_.\-]+)\s*`)
 var propsRe = regexp.MustCompile(`^\{([A-Z0-9, ]+)\}\s*`)
 
@@ -271,7 +271,7 @@ func parseContractFile(path, pkg string) ([]*Contract, error) {
 			fmt.Sscanf(strings.TrimSuffix(rest, ":"), "%d", &n)
 			curLoop = &LoopContract{Ordinal: n}
 			cur.Loops[n] = curLoop
-		case "pure", "trusted", "maypanic", "nofunctional", "readonly", "runes", "noframe", "nocallframe", "noerrprop", "nosafety", "nopre", "flags":
+		case "pure", "trusted", "maypanic", "nofunctional", "readonly", "runes", "noframe", "nocallframe", "noerrprop", "nosafety", "nopre", "overlay", "flags":
 			cur.Flags[m] = true
 			if rest != "" {
 				for _, x := range strings.Fields(rest) {
